@@ -880,7 +880,7 @@ impl FixtureDatabase {
         }
 
         // Determine is_test / is_fixture
-        let is_test = func_name.starts_with("test_");
+        let is_test = func_name.starts_with("test");
         let is_fixture = Self::has_fixture_decorator_above(&lines, def_line_idx);
 
         // No completions for regular functions
@@ -1285,7 +1285,7 @@ impl FixtureDatabase {
         }
 
         let is_fixture = decorator_list.iter().any(decorators::is_fixture_decorator);
-        let is_test = func_name.as_str().starts_with("test_");
+        let is_test = func_name.as_str().starts_with("test");
 
         if !is_test && !is_fixture {
             return None;
@@ -1443,7 +1443,7 @@ impl FixtureDatabase {
                             .decorator_list
                             .iter()
                             .any(decorators::is_fixture_decorator);
-                        let is_test = func_def.name.starts_with("test_");
+                        let is_test = func_def.name.starts_with("test");
 
                         // Only return if it's a test or fixture
                         if is_test || is_fixture {
@@ -1469,7 +1469,7 @@ impl FixtureDatabase {
                             .decorator_list
                             .iter()
                             .any(decorators::is_fixture_decorator);
-                        let is_test = func_def.name.starts_with("test_");
+                        let is_test = func_def.name.starts_with("test");
 
                         if is_test || is_fixture {
                             let params: Vec<String> = func_def
